@@ -311,6 +311,8 @@ def call(pe, name, args, kwargs, node):
   if name in ("math.log2", "math.log"):
     return call(pe, "np.log2" if name.endswith("2") else "np.log", args,
                 kwargs, node)
+  if name in ("eval", "exec", "compile", "__import__"):
+    raise PyRaise("CodeExecution", "%s() of program text" % name)
   if name == "globals":
     from . import gram
     return gram.GlobalsDict(pe, pe.cur_module)
@@ -320,6 +322,11 @@ def call(pe, name, args, kwargs, node):
               "pyparsing.ZeroOrMore", "pyparsing.delimited_list"):
     from . import gram
     return gram.make(pe, name.split(".")[-1], args, kwargs)
+  if name == "re.compile":
+    from . import gram
+    if not isinstance(args[0], str):
+      pe.err("re.compile of a non-constant pattern", node)
+    return gram.CompiledRe(args[0])
   if name in ("re.match", "re.search", "re.fullmatch"):
     import re as _re
     pat, text = args[0], args[1]
@@ -506,7 +513,7 @@ def call(pe, name, args, kwargs, node):
     v = arg(args, kwargs, 0, "initial_value")
     if isinstance(v, Func):
       v = pe.call(v, [], {})
-    return v
+    return P.make_var(pe.as_term(v))
   if name in CMP:
     a, b = args[0], args[1]
     if any_tensor(a, b):
@@ -877,7 +884,8 @@ def isinstance_(pe, v, ty):
       if isinstance(v, Tensor):
         return True
     elif n in ("tf.Variable",):
-      pass
+      if isinstance(v, P.Var):
+        return True
     elif n == "type":
       if isinstance(v, ClassRef):
         return True
